@@ -608,9 +608,10 @@ Section Faults.
       unfold list_all_files. rewrite run_bind. unfold get_site_id. cbn [run st0 sid].
       unfold get_json, ensure_token, fetch_token, send. cbn [st0 tok nreq urls List.length r_url].
       unfold wF, faulty. cbn [Nat.eqb].
-      destruct f as [c| |stt| | |]; cbn [resp_of_fault err_of];
+      destruct f as [c| |stt| | | | | |o]; cbn [resp_of_fault err_of];
         try (change (is_2xx (Some 200%Z)) with true; cbv iota);
-        try (simpl in Hf; apply negb_true_iff in Hf; rewrite Hf);
+        try (cbn [fault_ok] in Hf; apply negb_true_iff in Hf; rewrite Hf);
+        try (cbn [fault_ok] in Hf; apply andb_true_iff in Hf as [_ Hf]; apply negb_true_iff in Hf; rewrite Hf);
         eexists; (split; [reflexivity|]); (split; [reflexivity|]); simpl; (split; [reflexivity|]);
         (split; [left; split; reflexivity | reflexivity]).
     - (* the site request fails *)
@@ -621,7 +622,10 @@ Section Faults.
       rewrite (get_json_cached E wF _ s_tok tk eq_refl).
       destruct (send_fault wH 1 f (site_api_url E) tk s_tok eq_refl Hf) as (s' & Hsend & Hu & Hb & Htk' & Hsd).
       fold wF in Hsend. rewrite Hsend.
-      exists s'. split; [reflexivity|]. split; [destruct f; reflexivity|].
+      exists s'. split; [reflexivity|]. split.
+      { destruct f as [c| |stt| | | | | |o]; try reflexivity.
+        cbn [fault_ok] in Hf. apply andb_true_iff in Hf as [Hf _]. apply andb_true_iff in Hf as [_ H2].
+        cbn [run]. destruct (o_id o); [discriminate | reflexivity]. }
       unfold balanced in Hb. simpl in Hb. split; [lia|]. split.
       + right. split; [exact Htk' | left; exact Hsd].
       + unfold nreq. rewrite Hu. reflexivity.
